@@ -358,6 +358,24 @@ pub fn main() {
             }
         }
     }
+    if args.dump.is_some() {
+        // cases dumped for the Miri stage: a directed subset in which every view / conversion form is equally frequent (in the
+        // full grid 80% of the small-N cases are length-mismatch attempts, which Miri has nothing to say about)
+        let mut seen = std::collections::HashSet::new();
+        g.retain(|c| {
+            [1usize, 2, 3, 5, 8, 16].contains(&c.n)
+                && matches!(c.kind, Kind::U8 | Kind::U32 | Kind::Tracked | Kind::Al32)
+                && match c.op {
+                    Op::Reinterpret(l, _) => l == c.n || l == c.n + 1,
+                    _ => true,
+                }
+                && seen.insert((c.n, c.kind, match c.op {
+                    Op::Views(k, _) => (0u8, k as usize, 0u8),
+                    Op::Reinterpret(l, f) => (1, l, f),
+                    Op::ByValue(v) => (2, 0, v),
+                }))
+        });
+    }
     let acc = engine::parallel(&args, PROP, |w, workers, acc| {
         for (i, c) in g.iter().enumerate() {
             if i % workers == w {
